@@ -264,15 +264,17 @@ def run(chk, facts, tier, only=None):
                     verdict, detail = range_ok(g, par, n, callers_of_choose_range)
                     chk.expect(verdict, key_of("int_in_range", detail if verdict else detail.split(":")[0]),
                                f"{g['key']}: `{show(n)[:90]}`: Unstructured::int_in_range asserts start <= end "
-                               f"(\"requires a non-empty range\"); here {detail}. Both bounds come from the `range` configuration "
-                               f"(Option<(i64, i64)>) and are never compared, so `range = [10, 5]` at any integer type panics",
+                               f"(\"requires a non-empty range\"); here {detail}" +
+                               (". In arbitrary_num both bounds come from the `range` configuration (Option<(i64, i64)>, each clamped "
+                                "separately by try_from(..).unwrap_or(min|max)), so e.g. `range = [10, 5]` at any integer type panics "
+                                "instead of returning an error" if fname == "arbitrary_num" else ""),
                                where=where, ok_detail=detail)
                     continue
                 # -- panic macros (the TypeInner table above covers the catch-all of `any`)
                 if k == "call" and (callee(n) or "").startswith("core::panicking") or \
                         (k == "call" and re.search(r"(assert_failed|panic_fmt|panic_display|begin_panic)", callee(n) or "")):
                     mac = [x for x in (n.get("mac") or []) if x in PANIC_MACROS]
-                    in_any_table = g is h and any(contains(a["body"], n) for a in m["arms"])
+                    in_any_table = g is h and any(is_panic_expr(a["body"]) and contains(a["body"], n) for a in m["arms"])
                     if in_any_table:
                         continue
                     nsites += 1
